@@ -414,6 +414,7 @@ func cmdParseTexts(args []string) {
 	trace := fs.String("trace", "", "flat trace with steps (optional)")
 	df := fs.String("df", "df", "default field of the second call")
 	observe := fs.Bool("observe", false, "also record the other observables")
+	withJSON := fs.Bool("json", false, "also record the JSON round trip of every returned expression")
 	fs.Parse(args)
 	r, closeFn := newRecorder(*out, *trace != "")
 	defer closeFn()
@@ -456,7 +457,16 @@ func cmdParseTexts(args []string) {
 			observeAll(a)
 			observeAll(b)
 		}
-		r.write(map[string]any{"id": id, "q": q, "toks": a.Toks, "df": *df, "res": slim(a), "resdf": slim(b)})
+		line := map[string]any{"id": id, "q": q, "toks": a.Toks, "df": *df, "res": slim(a), "resdf": slim(b)}
+		if *withJSON {
+			if a.expr != nil {
+				line["rt"] = roundTrip(a.expr)
+			}
+			if b.expr != nil {
+				line["rtdf"] = roundTrip(b.expr)
+			}
+		}
+		r.write(line)
 	}
 	summary(map[string]any{"texts": id, "calls": 2 * id, "accepted": accepted})
 }
